@@ -459,3 +459,80 @@ Example c08_thunks_theorem_applies : forall ms', Permutation (tx_ms [2;0;1]) ms'
     exists fuel0, forall fuel', (fuel0 <= fuel')%nat -> exists ls' p',
       run_lazy K7.k7_tree tx_file config0 [[]] None ([] : list Regex.regex) Regex.rx_captures c8_call fuel' ms' [] = Ok (ls', p') /\ graph_iso r tx_gB (l_graph ls').
 Proof. exact tx_theorem_applies. Qed.
+
+(* ---------------- the locality hypothesis derived from the checker (C06) ----------------
+   `pm_ok2_ns` (Proofs/LocalFrag.v) is `pm_ok2` WITHOUT the demand that the eager positions (scan subject, if
+   conditions, for list) contain no scoped-variable read; every other restriction of the fragment is kept.  For a file
+   accepted by the checker the demand holds by itself (Props/C06.v, checked_eager_positions_local): the whole-run
+   theorems can be stated with `check_file q f = CkOk fl`. *)
+From TSG Require Import Model.Checker Model.Locality Proofs.LocalFrag.
+
+Theorem checked_blocks_in_fragment : forall q f fl okfn ms,
+  check_file q f = CkOk fl -> Forall (pm_ok2_ns fl okfn) ms -> Forall (pm_ok2 fl okfn) ms.
+Proof. exact checked_pm_ok2. Qed.
+
+Theorem lazy_block_order_iso_scoped_checked_partial : forall (rx : Type) (t : tree) q f (fl : file) (supplied : globals) (regexes : list rx)
+    (find : rx -> str -> option (list (option (N * N)))) (call : ident -> graph -> list value -> res (value * graph)) (okfn : ident -> Prop),
+  check_file q f = CkOk fl ->
+  (forall f, okfn f -> call_ok call f) ->
+  forall g0 : graph, gclosed (N.of_nat (length g0)) g0 ->
+  (forall glob, check_globals (f_globals fl) (globals_nested supplied) = Ok glob ->
+     forall name v, globals_get glob name = Some v -> vall (fun i => i < N.of_nat (length g0)) v) ->
+  forall (fuel : nat) (ms ms' : list (N * qmatch)) (ls : lstate) (p : polls),
+  Permutation ms ms' -> Forall (pm_ok2_ns fl okfn) ms ->
+  run_lazy t fl config0 supplied None regexes find call fuel ms g0 = Ok (ls, p) ->
+  exists r r', (forall i, r' (r i) = i) /\ (forall i, r (r' i) = i) /\ (forall i, i < N.of_nat (length g0) -> r i = i) /\
+    exists fuel0, forall fuel', (fuel0 <= fuel')%nat -> exists ls' p',
+      run_lazy t fl config0 supplied None regexes find call fuel' ms' g0 = Ok (ls', p') /\ graph_iso r (l_graph ls) (l_graph ls').
+Proof.
+  intros rx t q f fl supplied regexes find call okfn Hck Hcall g0 Hcl Hglob fuel ms ms' ls p HP Hok Hrun.
+  exact (lazy_block_order_iso_scoped_partial rx t fl supplied regexes find call okfn Hcall g0 Hcl Hglob fuel ms ms' ls p HP
+           (checked_pm_ok2 q f fl okfn ms Hck Hok) Hrun).
+Qed.
+Theorem lazy_block_order_fail_scoped_checked_partial : forall (rx : Type) (t : tree) q f (fl : file) (supplied : globals) (regexes : list rx)
+    (find : rx -> str -> option (list (option (N * N)))) (call : ident -> graph -> list value -> res (value * graph)) (okfn : ident -> Prop),
+  check_file q f = CkOk fl ->
+  (forall f, okfn f -> call_ok call f) ->
+  forall g0 : graph, gclosed (N.of_nat (length g0)) g0 ->
+  (forall glob, check_globals (f_globals fl) (globals_nested supplied) = Ok glob ->
+     forall name v, globals_get glob name = Some v -> vall (fun i => i < N.of_nat (length g0)) v) ->
+  forall (fuel : nat) (ms ms' : list (N * qmatch)),
+  Permutation ms ms' -> Forall (pm_ok2_ns fl okfn) ms ->
+  (forall r, run_lazy t fl config0 supplied None regexes find call fuel ms g0 <> Ok r) ->
+  run_lazy t fl config0 supplied None regexes find call fuel ms g0 <> OutOfFuel ->
+  forall fuel' r, run_lazy t fl config0 supplied None regexes find call fuel' ms' g0 <> Ok r.
+Proof.
+  intros rx t q f fl supplied regexes find call okfn Hck Hcall g0 Hcl Hglob fuel ms ms' HP Hok.
+  exact (lazy_block_order_fail_scoped_partial rx t fl supplied regexes find call okfn Hcall g0 Hcl Hglob fuel ms ms' HP
+           (checked_pm_ok2 q f fl okfn ms Hck Hok)).
+Qed.
+
+(* non-vacuity: the weakened predicate is strictly weaker — `scan @m.d { }` passes sstmt_ns and fails sstmt ... *)
+Example c08_ns_is_weaker :
+  sstmt_ns sx_file c8_okfn [] (SScan (EScoped sx_cap [100] c8_l0) [] c8_l0) /\
+  ~ sstmt sx_file c8_okfn [] (SScan (EScoped sx_cap [100] c8_l0) [] c8_l0).
+Proof. split; [split; [reflexivity|exact I]|]. intros [H _]. exact H. Qed.
+(* ... and on a program the checker accepts — (identifier)* @id { for x in @id { let a = x  let b = [a, a]
+   for y in b { let c = (f y a)  scan c { "rx0" { print c } }  if c { } } } } — the derived predicate holds of the checked file *)
+Definition c8k_tables : query_tables :=
+  {| qt_stanza_names := [[[105; 100]; FULL_MATCH]]; qt_file_names := [[105; 100]; FULL_MATCH];
+     qt_file_quants := [[QStar; QOne]]; qt_nullable := [false] |}.
+Definition c8k_file : file :=
+  {| f_globals := []; f_inherited := []; f_shorthands := [];
+     f_stanzas := [{| st_stmts :=
+       [SFor [120] c8_l0 (ECapture [105; 100] QZero 0 0 c8_l0)
+          [SLet (VarU [97] c8_l0) (EUnscoped [120] c8_l0) c8_l0;
+           SLet (VarU [98] c8_l0) (EList [EUnscoped [97] c8_l0; EUnscoped [97] c8_l0]) c8_l0;
+           SFor [121] c8_l0 (EUnscoped [98] c8_l0)
+             [SLet (VarU [99] c8_l0) (ECall [102] [EUnscoped [121] c8_l0; EUnscoped [97] c8_l0]) c8_l0;
+              SScan (EUnscoped [99] c8_l0) [(0, [SPrint [EUnscoped [99] c8_l0] c8_l0], c8_l0)] c8_l0;
+              SIf [([CBool (EUnscoped [99] c8_l0) c8_l0], [], c8_l0)] c8_l0] c8_l0] c8_l0];
+       st_full_stanza_idx := 1; st_full_file_idx := 0; st_start := c8_l0 |}] |}.
+Example c08_checked_in_fragment : exists fl,
+  check_file c8k_tables c8k_file = CkOk fl /\ Forall (pm_ok2 fl (fun _ => True)) [(0, [])].
+Proof.
+  eexists. split; [vm_compute; reflexivity|].
+  eapply (checked_blocks_in_fragment c8k_tables c8k_file); [vm_compute; reflexivity|]. constructor; [|constructor].
+  intros st E. cbn in E. inversion E; subst st. split; [|constructor].
+  cbn [st_stmts All sstmt_ns svar fvar fexpr fexpr_ns mexpr fcond_ns fst snd]. repeat split; auto.
+Qed.
